@@ -133,10 +133,16 @@ impl Fq {
     ///
     /// Note: Arkworks provides another method for this, called `pow`.
     pub fn power<S: AsRef<[u64]>>(&self, exp: S) -> Self {
-        let mut res = Fq::from(1u64);
-        let exp_u64 = exp.as_ref();
-        for _ in 0..exp_u64[0] {
-            res *= self;
+        // Square-and-multiply over all little-endian limbs of the exponent.
+        let mut res = Fq::ONE;
+        let mut insert = *self;
+        for limb in exp.as_ref() {
+            for i in 0..64 {
+                if (limb >> i) & 1 == 1 {
+                    res *= insert;
+                }
+                insert *= insert;
+            }
         }
         res
     }
